@@ -27,8 +27,11 @@ RULE = (
     '(lowering and raising it); a history of <=45 steps over loop / return / '
     'advance / deliver / fair-rounds plus stop-point, stop-task (pooled, '
     'finished or future instance), trigger, stop (clean), stop --now and '
-    'restart (stop --now or clean stop, jobs optionally carry on while down, '
-    'new scheduler on the same run dir); then a fair drain, and - up to '
+    'restart (stop --now or clean stop + new scheduler on the same run dir).  '
+    'Whenever the scheduler has shut down during the history - requested, '
+    'by the stop task, or automatically - jobs optionally carry on while it '
+    'is down, it is restarted (<=4 times) and the history continues; then a '
+    'fair drain, and - up to '
     'twice - whenever the scheduler has shut down (for whatever reason) a '
     'restart and another drain.  The model keeps the requested stop point '
     '(command / option: stored; configuration: re-read at restart), the stop '
@@ -67,9 +70,12 @@ ASSUMPTIONS = [
     'stores (stop command, --stopcp): after a shutdown with reason AUTOMATIC '
     'the value is gone.  A configured [scheduling]stop after cycle point is '
     're-read from flow.cylc at every restart by design (documented with the '
-    'restart timeout) and is only required to be in force again.  If a stop '
-    'task reached a final state in the same incarnation the cause of an '
-    'AUTOMATIC shutdown is ambiguous and clause (3) is skipped from then on.',
+    'restart timeout) and is only required to be in force again.  An '
+    'AUTOMATIC shutdown right after the stop task reached a final state (or '
+    'with the stop task sitting finished in the pool) is attributed to the '
+    'stop task if the pool still held active or released waiting tasks (then '
+    'the stop point must have been kept); if nothing else remained to run '
+    'the cause is ambiguous and clause (3) is skipped from then on.',
     '"A clean stop waits for active jobs": active = task submitted/running '
     '(cylc\'s TASK_STATUSES_ACTIVE).  A task still preparing when the '
     'scheduler decides it can stop, whose jobs-submit command returns while '
@@ -81,9 +87,17 @@ ASSUMPTIONS = [
     'when the stop task fails is not contradicted by the statement.',
     'Order in which pending commands return while the scheduler drains its '
     'process pool during shutdown is FIFO (engine S).',
+    'Status changes are taken from the pooled task proxy only (state events '
+    'of data-store ghost proxies / proxies rebuilt from DB history are '
+    'dropped by comparing with the pooled proxy).',
+    'Known finding (own narrow signature ...:stop-task-lost-at-second-'
+    'restart): the stop task is restored at the first restart but wiped from '
+    'workflow_params then, so it is gone after the second; a stop task that '
+    'succeeds 0 or 1 restarts after the command keeps the plain signature.',
 ]
 
 MAX_RESTARTS = 4
+FINAL = ('succeeded', 'failed', 'submit-failed', 'expired')
 BASE_OPS = ['loop', 'loop', 'loop', 'ret', 'adv', 'del', 'del', 'fair',
             'fair', 'fair']
 CMD_OPS = ['stop-point', 'stop-point', 'stop-point', 'stop-task', 'stop-task',
@@ -204,8 +218,7 @@ class StopModel:
                                f'{self.eff()} (command/option '
                                f'{self.S_cmd}, config {self.S_cfg}); not '
                                f'manually triggered')
-            if self.stop_task == ident and a[0] in (
-                    'succeeded', 'failed', 'submit-failed', 'expired'):
+            if self.stop_task == ident and a[0] in FINAL:
                 self.stop_task_final = True
                 self.stop_task_final_it = ev['it']
                 if a[0] == 'succeeded':
@@ -239,6 +252,12 @@ class StopModel:
                    f'{t["cycle"]}/{t["name"]}' for t in ev['pool']
                    if t['status'] in ('preparing', 'submitted', 'running')
                    or (t['status'] == 'waiting' and not t['runahead'])]}
+        # the stop task sits in the pool in a final state (e.g. set after it
+        # had finished incomplete): it fires whenever the scheduler looks at
+        # that task again
+        rec['stop_task_final_in_pool'] = any(
+            f'{t["cycle"]}/{t["name"]}' == self.stop_task
+            and t['status'] in FINAL for t in ev['pool'])
         self.shutdowns.append(rec)
         self.pending_stop_task = None
         active = []
@@ -281,9 +300,12 @@ class StopModel:
         if not self.sure or 'stopcp' not in db:
             return
         want = self.to_str[self.S_cmd] if self.S_cmd is not None else None
-        if k == 'auto' and self.stop_task_final and \
-                self.stop_task_final_it >= rec['it'] - 1:
-            # the stop task finished in the previous iteration
+        if k == 'auto' and self.stop_task is not None and (
+                rec['stop_task_final_in_pool'] or (
+                    self.stop_task_final
+                    and self.stop_task_final_it >= rec['it'] - 1)):
+            # the stop task finished in the previous iteration (or sits
+            # finished in the pool)
             if rec['blockers']:
                 # ... and there was more to run: the stop task caused this
                 # shutdown, the stop point has not been reached
